@@ -4,6 +4,7 @@ package main
 // of the state-word protocol; linearizability itself is NOT decided).
 
 import (
+	"sort"
 	"fmt"
 	"go/token"
 	"go/types"
@@ -222,6 +223,8 @@ func rootLoad(v ssa.Value) (*ssa.UnOp, []string) {
 func runC03(c *Ctx) {
 	m := c.Root()
 	r := c.R
+	c03Encoding(c, m)
+	c03RetryReloads(c, m)
 	add := m.Func("internal/counter", "Counter.Add")
 	relR := m.Func("internal/counter", "Counter.releaseReader")
 	relL := m.Func("internal/counter", "Counter.releaseLock")
@@ -770,4 +773,123 @@ func waitsForReaders(f *ssa.Function) bool {
 		}
 	}
 	return false
+}
+
+// c03Encoding: the bit-field accessors of counterStateBits mean what the protocol rules take
+// them to mean (the rules above reason with readers()/locked()/havePtr()/extra() as names).
+// Layout: readers = low 30 bits, all ones = locked; bit 30 = havePtr; bits 31..63 = extra.
+func c03Encoding(c *Ctx, m *Module) {
+	r := c.R
+	const K = "1073741823"          // 1<<30 - 1
+	const H = "1073741824"          // 1<<30
+	const E = "18446744071562067968" // 1<<64 - 1<<31
+	want := map[string][]string{
+		"readers":      {"conv<int>((param:b & " + K + "))"},
+		"locked":       {"((param:b & " + K + ") == " + K + ")"},
+		"havePtr":      {"((param:b & " + H + ") != 0)"},
+		"extra":        {"((param:b & " + E + ") >> 31)", "(conv<uint64>((param:b & " + E + ")) >> 31)"},
+		"incReader":    {"(param:b + 1)"},
+		"decReader":    {"(param:b - 1)"},
+		"setLocked":    {"(param:b | " + K + ")"},
+		"clearLocked":  {"(param:b &^ " + K + ")"},
+		"setHavePtr":   {"(param:b | " + H + ")"},
+		"clearHavePtr": {"(param:b &^ " + H + ")"},
+		"clearExtra":   {"(param:b &^ " + E + ")"},
+	}
+	var names []string
+	for k := range want {
+		names = append(names, k)
+	}
+	sort.Strings(names)
+	for _, name := range names {
+		f := m.Func("internal/counter", "counterStateBits."+name)
+		got := "?"
+		n := 0
+		for _, b := range f.Blocks {
+			if ret, ok := b.Instrs[len(b.Instrs)-1].(*ssa.Return); ok && len(ret.Results) == 1 {
+				n++
+				got = describe(ret.Results[0])
+			}
+		}
+		ok := n == 1
+		if ok {
+			ok = false
+			for _, w := range want[name] {
+				if got == w || got == commuted(w) {
+					ok = true
+				}
+			}
+		}
+		r.Check("C03.locking", "counterStateBits."+name+" is the documented bit field", m.Pos(f.Pos()), ok, "want "+want[name][0]+"; got "+got)
+	}
+}
+
+// commuted swaps the operands of the outermost "(a OP b)" of s for the commutative operators.
+func commuted(s string) string {
+	for _, op := range []string{" & ", " | ", " + ", " == ", " != "} {
+		if strings.HasPrefix(s, "(param:b"+op) && strings.HasSuffix(s, ")") {
+			rest := s[len("(param:b"+op) : len(s)-1]
+			return "(" + rest + op + "param:b)"
+		}
+	}
+	return s
+}
+
+// c03RetryReloads: a compare-and-swap that failed is tried again only with a state that was
+// loaded again. update(&state, new) leaves *state untouched when it fails; a loop that goes
+// round without `state = c.state.load()` compares with the same stale value for ever (the
+// counter word keeps changing under concurrent Adds): "no call waits forever".
+func c03RetryReloads(c *Ctx, m *Module) {
+	r := c.R
+	n := 0
+	for _, fn := range m.PkgFuncs("internal/counter") {
+		for _, cs := range callsIn(fn, csRecv+"update") {
+			u, ok := cs.(*ssa.Call)
+			if !ok {
+				continue
+			}
+			addrs := stateAddrs(argsOf(u)[1])
+			isUpdate := func(in ssa.Instruction) bool {
+				cl, ok := in.(*ssa.Call)
+				return ok && calleeName(&cl.Call) == csRecv+"update" && addrs[argsOf(cl)[1]]
+			}
+			isReload := func(in ssa.Instruction) bool {
+				st, ok := in.(*ssa.Store)
+				if !ok || !addrs[st.Addr] {
+					return false
+				}
+				cl, ok := strip(st.Val).(*ssa.Call)
+				return ok && calleeName(&cl.Call) == csRecv+"load"
+			}
+			// the failure edge(s) of u
+			var starts []walkState
+			for _, b := range fn.Blocks {
+				ifi, ok := b.Instrs[len(b.Instrs)-1].(*ssa.If)
+				if !ok {
+					continue
+				}
+				f := normFact(ifi.Cond, true)
+				if f.Cond != ssa.Value(u) {
+					continue
+				}
+				fail := b.Succs[1]
+				if !f.Pol {
+					fail = b.Succs[0]
+				}
+				starts = append(starts, walkState{b, fail, 0})
+			}
+			if len(starts) == 0 {
+				continue // the result is not branched on (returned to the caller: checked there)
+			}
+			n++
+			w := walkWithout(starts, isUpdate, isReload)
+			where := ""
+			if w != nil {
+				where = m.Pos(w.Pos())
+			}
+			r.Check("C03.locking", fmt.Sprintf("%s/update #%d: a failed compare-and-swap is retried only after the state was loaded again", short(fn.Name()), n), m.Pos(u.Pos()), w == nil,
+				"after update() fails, the next update() on the same local state is reached without `state = c.state.load()` in between (at "+where+"): the retry compares with a stale value and can spin for ever")
+		}
+	}
+	r.Check("C03.locking", "compare-and-swap retry sites enumerated", "-", n >= 5, fmt.Sprintf("%d", n))
 }
